@@ -1,5 +1,6 @@
 import HvsrVerif.Drv.C02
 import HvsrVerif.Drv.C08
+import HvsrVerif.Drv.C13
 import HvsrVerif.Drv.C16
 import HvsrVerif.Drv.HV
 import HvsrVerif.Drv.Loop
@@ -19,7 +20,9 @@ def dispatch (op : String) : Option (P String) :=
   | "sesame.rel" => some sesameRel
   | "sesame.cla" => some sesameCla
   | "sesame.band" => some sesameBand
-  | _ => opsProc op
+  | _ => match opsProc op with
+    | some p => some p
+    | none => opsC13 op
 
 def handle (st : Store) (line : String) : Store × String :=
   match tokens line with
